@@ -4,7 +4,15 @@
 #define VIEWSIM_UNIVERSE_H
 #include "viewsim.h"
 
+#ifndef VIEWSIM_MAP_PARENT
+#define VIEWSIM_MAP_PARENT 0      // 1: the destination A is a TensorMap over an exact-extent, possibly misaligned arena buffer (C05 kinds only)
+#endif
+
 namespace viewsim {
+
+// compile-time gate: the generic lambda is instantiated only when the form exists for this parent type
+template <bool OK> struct Gate { template <class F, class X> static void run(F &&f, X &x) { f(x); } };
+template <> struct Gate<false> { template <class F, class X> static void run(F &&, X &) {} };
 
 enum Kind : uint32_t { K_DYN_WRITE = 0, K_ELEM_WRITE = 1, K_DYN_ALIAS = 2, K_H_CREATE = 3, K_H_NOALIAS = 4, K_H_ASSIGN = 5, K_IDX_ALIAS = 6, K_MASK_ALIAS = 7, K_DIAG = 8, K_BAD_ELEM = 9, K_FIX_BASE = 16 };
 enum { NHANDLES = 3 };
@@ -83,7 +91,7 @@ template <class T, size_t M, size_t N> struct PartEval<Tensor<T, M, N>> { enum {
     void fill(uint32_t seed) { for (size_t i = 0; i < EP * 2; ++i) X.data()[i] = smallval<T>(mix2(seed, i)); for (size_t i = 0; i < 2 * EQ; ++i) Y.data()[i] = smallval<T>(mix2(seed + 9, i)); }
     auto expr() const { return X % Y; }
     Tensor<T, EP, EQ> ref() const { Tensor<T, EP, EQ> r = X % Y; return r; } };
-template <class Ten, bool Av = PartEval<Ten>::available> struct PartEvalRun {
+template <class Ten, bool Av = PartEval<Ten>::available && !VIEWSIM_MAP_PARENT> struct PartEvalRun {
     template <class U, class S> static bool go(U &, int, const Step &, Outcome &, S &, seq *, int *) { return false; } };
 template <class Ten> struct PartEvalRun<Ten, true> {
     // forces the extents of d, computes expA and runs the assignment; returns true when handled
@@ -104,13 +112,23 @@ template <class T, size_t... D> struct Uni : UniverseBase {
     using self = Uni<T, D...>;
     static constexpr int R = (int)sizeof...(D);
     static constexpr int SZ = (int)prod_<D...>::value;
-    using View = TensorViewExpr<Ten, (size_t)R>;
+#if VIEWSIM_MAP_PARENT
+    using Par = TensorMap<T, D...>;          // views of a map of EVERY rank go through the generic n-d view classes
+    alignas(16) unsigned char parstore[sizeof(Par)];
+    // dynamic views of rank-1/2 maps accept scalars only on the pinned tree (their expression overloads do not compile: they build a
+    // TensorViewExpr<Tensor<..>,1|2> from a std::array of ranges); compile-time views and rank >= 3 dynamic views accept every form
+    static constexpr bool DYN_EXPR_OK = R >= 3;
+#else
+    using Par = Ten;
+    static constexpr bool DYN_EXPR_OK = true;
+#endif
+    using View = TensorViewExpr<Par, (size_t)R>;
     static constexpr int LANES = (int)Ten::simd_vector_type::Size;
     using SelT = Sel<R>;
 
     std::string nm;
     int dims[R];
-    Ten *A = nullptr, *B = nullptr, *C = nullptr;
+    Par *A = nullptr; Ten *B = nullptr, *C = nullptr;
     using Flat = Tensor<T, (size_t)SZ>; Flat *F = nullptr;      // a rank-1 tensor of the same element count (rank-mismatched right-hand sides)
     std::vector<T> sA, sB, sC, sF, expA, naive;
     uint32_t dataseed = 0, sideA = 0;
@@ -131,12 +149,24 @@ template <class T, size_t... D> struct Uni : UniverseBase {
         uint32_t pat = p.hdr[H_POISON];
         for (int s = 0; s < 4; ++s) g_arena.reset(s, pat + (uint32_t)s);
         g_scrub_byte = (uint8_t)(0x31 + 7 * pat); g_stack_skew = (p.hdr[H_DATA] & 3) << 4;
+#if VIEWSIM_MAP_PARENT
+        // exact-extent buffer, element-granular misalignment 0..63 chosen by the plan (flush against the guard page in half of the runs)
+        const size_t abytes = sizeof(T) * (size_t)SZ;
+        uint8_t *pa = g_arena.place(0, abytes, sizeof(T), sideA, (p.hdr[H_DATA] & 4) ? 0 : ((p.hdr[H_DATA] >> 3) % 64), true);
+#else
+        const size_t abytes = sizeof(Ten);
         uint8_t *pa = g_arena.place(0, sizeof(Ten), alignof(Ten), sideA, 0, true);
+#endif
         uint8_t *pb = g_arena.place(1, sizeof(Ten), alignof(Ten), p.hdr[H_SIDE_B] % 3, 0, false);
         uint8_t *pc = g_arena.place(2, sizeof(Ten), alignof(Ten), MIDDLE, 0, false);
         uint8_t *pf = g_arena.place(3, sizeof(Flat), alignof(Flat), MIDDLE, 0, false);
-        memset(pa, 0, sizeof(Ten)); memset(pb, 0, sizeof(Ten)); memset(pc, 0, sizeof(Ten)); memset(pf, 0, sizeof(Flat));
-        A = new (pa) Ten; B = new (pb) Ten; C = new (pc) Ten; F = new (pf) Flat;
+        memset(pa, 0, abytes); memset(pb, 0, sizeof(Ten)); memset(pc, 0, sizeof(Ten)); memset(pf, 0, sizeof(Flat));
+#if VIEWSIM_MAP_PARENT
+        A = new (parstore) Par(reinterpret_cast<T *>(pa));
+#else
+        A = new (pa) Ten;
+#endif
+        B = new (pb) Ten; C = new (pc) Ten; F = new (pf) Flat;
         for (int i = 0; i < SZ; ++i) { sF[i] = pow2val<T>(mix2(dataseed * 7u + 3, (uint64_t)i)); F->data()[i] = sF[i]; }
         refill_A(0, false);
         for (int i = 0; i < SZ; ++i) { sB[i] = pow2val<T>(mix2(dataseed * 3u + 1, (uint64_t)i)); B->data()[i] = sB[i]; sC[i] = smallval<T>(mix2(dataseed * 5u + 2, (uint64_t)i)); C->data()[i] = sC[i]; }
@@ -261,8 +291,9 @@ template <class T, size_t... D> struct Uni : UniverseBase {
     // ---------------------------------------------------------------- K_DYN_WRITE (C05)
     void dyn_write(const Step &st, StepCtx &cx) {
         int op = (int)(st.a[A_OP] % 5); uint32_t rk = st.a[A_RHS] % 10; int form = (int)(st.a[A_FORM] % MkView<R>::NFORMS);
-        if (rk == 9 && (!PartEval<Ten>::available || op == 4)) rk = 1;       // rk 9: partial view op= X % Y
-        if (rk == 6 && (!FullEval<Ten>::available || op == 4)) rk = 4;
+        if (rk == 9 && (!PartEval<Ten>::available || op == 4 || VIEWSIM_MAP_PARENT)) rk = 1;       // rk 9: partial view op= X % Y
+        if (rk == 6 && (!FullEval<Ten>::available || op == 4 || VIEWSIM_MAP_PARENT)) rk = 4;
+        if (!DYN_EXPR_OK) rk = 0;
         if (rk >= 7 && R == 1) rk = 1;                                 // rank-mismatched right-hand sides exist for rank >= 2 only
         normalise(cx.si, op, false);
         Sel<R> d; decode_sel(st, A_D0, 9, d);
@@ -298,8 +329,10 @@ template <class T, size_t... D> struct Uni : UniverseBase {
             expA[di] = apply_op<T>(op, sA[di], r); if (memcmp(&expA[di], &sA[di], sizeof(T))) changed = true;
         }
         if (handled) changed = memcmp(expA.data(), sA.data(), sizeof(T) * SZ) != 0;
-        Ten &a = *A, &b = *B, &c = *C; Flat &fl = *F;
+        Par &a = *A; Ten &b = *B, &c = *C; Flat &fl = *F;
         if (!handled) o = window([&] {
+            if (rk == 0) { do_assign(op, MkView<R>::mk(a, q, fixi, form), sc); return; }
+            Gate<DYN_EXPR_OK>::run([&](auto &a) {
             switch (rk) {
             case 7: do_assign(op, MkView<R>::mk(a, q, fixi, form), fl(fq)); break;
             case 8: do_assign(op, MkView<R>::mk(a, q, fixi, form), fl(fq) * (T)2 + (T)1); break;
@@ -309,9 +342,10 @@ template <class T, size_t... D> struct Uni : UniverseBase {
             case 3: if (st.a[A_VAL] & 1) do_assign(op, MkView<R>::mk(a, q, fixi, 0), (T)7 - MkView<R>::mk(b, q1, fixi, 0));      // scalar on the LEFT of a non-commutative operator
                     else do_assign(op, MkView<R>::mk(a, q, fixi, 0), MkView<R>::mk(b, q1, fixi, 0) - MkView<R>::mk(c, q2, fixi, 0)); break;
             case 4: do_assign(op, MkView<R>::mk(a, q, fixi, 0), b); break;
-            case 6: FullEval<Ten>::go(op, a, b, c); break;
+            case 6: Gate<!VIEWSIM_MAP_PARENT>::run([&](auto &aa) { FullEval<Ten>::go(op, aa, b, c); }, a); break;
             default: do_assign(op, MkView<R>::mk(a, q, fixi, 0), b + c * (T)2); break;
             }
+            }, a);
         }, failalloc);
         char sd[80]; describe_sel(sd, sizeof sd, d);
         snprintf(cx.info->desc, sizeof cx.info->desc, "A(%s) form%d %s rhs%u", sd, form, OPNAME[op], rk);
@@ -322,14 +356,14 @@ template <class T, size_t... D> struct Uni : UniverseBase {
     }
 
     // ---------------------------------------------------------------- K_ELEM_WRITE (C05): A(i,j,..) op= v with negative indices
-    template <size_t... I> T &elem(Ten &a, const int *ix, std_ext::index_sequence<I...>) { return a(ix[I]...); }
+    template <size_t... I> T &elem(Par &a, const int *ix, std_ext::index_sequence<I...>) { return a(ix[I]...); }
     void elem_write(const Step &st, StepCtx &cx) {
         int op = (int)(st.a[A_OP] % 5); normalise(cx.si, op, false);
         int ix[R], pos[R], flat = 0;
         for (int k = 0; k < R; ++k) { pos[k] = (int)(st.a[A_D0 + k] % (uint32_t)dims[k]); ix[k] = ((st.a[A_X] >> k) & 1) ? pos[k] - dims[k] : pos[k]; flat = flat * dims[k] + pos[k]; }
         T sc = op == 4 ? pow2val<T>(st.a[A_VAL]) : smallval<T>(st.a[A_VAL]);
         expA = sA; expA[flat] = apply_op<T>(op, sA[flat], sc);
-        Ten &a = *A;
+        Par &a = *A;
         Outcome o = window([&] { T &e = elem(a, ix, std_ext::make_index_sequence<(size_t)R>{});
             switch (op) { case 0: e = sc; break; case 1: e += sc; break; case 2: e -= sc; break; case 3: e *= sc; break; default: e /= sc; } }, failalloc);
         Sel<R> d; for (int k = 0; k < R; ++k) { d.f[k] = pos[k]; d.s[k] = 1; d.ext[k] = 1; d.l[k] = pos[k] + 1; }
@@ -349,7 +383,7 @@ template <class T, size_t... D> struct Uni : UniverseBase {
         int ax = (int)(st.a[A_FORM] % (uint32_t)R), over = 1 + (int)(st.a[A_X] % 3);
         ix[ax] = (st.a[A_RHS] & 2) ? dims[ax] + over - 1 : -dims[ax] - over;
         T sc = smallval<T>(st.a[A_VAL]); bool wr = st.a[A_RHS] & 1; T rd = 0;
-        Ten &a = *A;
+        Par &a = *A;
         o = window([&] { if (wr) elem(a, ix, std_ext::make_index_sequence<(size_t)R>{}) = sc; else rd = elem(a, ix, std_ext::make_index_sequence<(size_t)R>{}); }, false);
         if (cx.cnt) { cx.cnt->bump("fault/bad-index-delivered-inside-history"); if (o.kind == 2) cx.cnt->bump("probe/bad-index-exception-observed"); }
         if (o.kind == 2) o.kind = 0;          // the promised error: the operation is over, the history continues
@@ -375,6 +409,7 @@ template <class T, size_t... D> struct Uni : UniverseBase {
 
     // ---------------------------------------------------------------- K_DYN_ALIAS (C18)
     void dyn_alias(const Step &st, StepCtx &cx) {
+#if !VIEWSIM_MAP_PARENT
         int op = (int)(st.a[A_OP] % 5); uint32_t fk = st.a[A_RHS] % 5; bool coincident = (st.a[A_FORM] % 4) == 0;       // fk 4: c - src (scalar on the left)
         normalise(cx.si, op, true);
         Sel<R> d; decode_sel(st, A_D0, 9, d, (st.a[A_FORM] / 4) % 4 != 0);
@@ -417,11 +452,13 @@ template <class T, size_t... D> struct Uni : UniverseBase {
         cx.info->sig = mix2(mix2(((uint64_t)op << 8) | fk, coincident ? 1 : 0), ((uint64_t)(uint32_t)(shift + 64) << 16) | (uint64_t)(d.s[R - 1] * 16 + s1.s[R - 1] * 4) | ((uint64_t)(d.ext[R - 1] % 16) << 32));
         if (cx.cnt) cx.cnt->bump(std::string("probe/dyn-view overlap ") + overlap_class(coincident, hazard));
         finish(cx, o, "dyn_alias", &d, cx.info->desc);
+#endif
     }
 
     // ---------------------------------------------------------------- long-lived handles (C18): the sticky flag lives across steps
     View *hview(int i) { return reinterpret_cast<View *>(hd[i].store); }
     void h_create(const Step &st, StepCtx &cx) {
+#if !VIEWSIM_MAP_PARENT
         int i = (int)(st.a[A_FORM] % NHANDLES);
         Sel<R> d; decode_sel(st, A_D0, 9, d, (st.a[A_D0] >> 3) % 4 != 0);
         seq q[4] = {seq(0, 1), seq(0, 1), seq(0, 1), seq(0, 1)}; int fixi[4] = {0, 0, 0, 0};
@@ -433,16 +470,20 @@ template <class T, size_t... D> struct Uni : UniverseBase {
         snprintf(cx.info->desc, sizeof cx.info->desc, "h%d = A(%s)", i, sd);
         cx.info->sig = mix2(0x77, (uint64_t)i);
         finish(cx, o, "handle", nullptr, cx.info->desc);
+#endif
     }
     void h_noalias(const Step &st, StepCtx &cx) {
+#if !VIEWSIM_MAP_PARENT
         int i = (int)(st.a[A_FORM] % NHANDLES);
         expA = sA; Outcome o;
         if (hd[i].live) { View *v = hview(i); o = window([&] { v->noalias(); }, false); hd[i].armed = true; if (cx.cnt) cx.cnt->bump("fault/noalias-armed-on-long-lived-handle"); }
         snprintf(cx.info->desc, sizeof cx.info->desc, "h%d.noalias()%s", i, hd[i].live ? "" : " (dead handle: no-op)");
         cx.info->sig = mix2(0x78, (uint64_t)i);
         finish(cx, o, "handle", nullptr, cx.info->desc);
+#endif
     }
     void h_assign(const Step &st, StepCtx &cx) {
+#if !VIEWSIM_MAP_PARENT
         int i = (int)(st.a[A_FORM] % NHANDLES);
         int op = (int)(st.a[A_OP] % 5); uint32_t fk = st.a[A_RHS] % 3;
         if (!hd[i].live) { expA = sA; Outcome o; snprintf(cx.info->desc, sizeof cx.info->desc, "h%d assign (dead handle: no-op)", i); cx.info->sig = mix2(0x79, 9); finish(cx, o, "handle", nullptr, cx.info->desc); return; }
@@ -473,6 +514,7 @@ template <class T, size_t... D> struct Uni : UniverseBase {
         cx.info->sig = mix2(mix2(((uint64_t)op << 8) | fk, armed ? 3 : 2), (uint64_t)(uint32_t)(s1.f[R - 1] - d.f[R - 1] + 64));
         if (cx.cnt) { cx.cnt->bump(std::string("probe/handle assign ") + (armed ? "armed " : "unarmed ") + overlap_class(!armed, hazard)); }
         finish(cx, o, "handle_assign", &d, cx.info->desc);
+#endif
     }
 
     // ---------------------------------------------------------------- dispatch
